@@ -35,6 +35,8 @@ def run(ctx):
     ctx.rule('R18g', 'delimiter comparisons between an argument group and its inner group compare like with '
                      'like (opening with opening)', 1)
     ctx.rule('R18h', 'a key-value value loses its braces only when it consists of exactly one brace group', 1)
+    ctx.rule('R18q', 'the braces are stripped from the pair\'s own value (the part after the equals sign), before the '
+                     'repeated-key policy combines it with an earlier value and before the default is substituted', 1)
     ctx.rule('R18i', 'a regular-expression separator is searched with search(text, pos) on the whole text (left '
                      'context preserved), as the first reachable way', 1)
     ctx.rule('R18f', 'parse_keyval_content splits at the comma separator, then each part at the '
@@ -215,20 +217,64 @@ def run(ctx):
 
     # ---------------------------------------------------------------- R18g / R18h
     # the value's braces are stripped only when the value IS one brace group
-    unw = [x for x in iter_own(pk) if isinstance(x, ast.Assign) and isinstance(x.value, ast.Attribute)
-           and x.value.attr == 'nodelist' and isinstance(x.value.value, ast.Subscript)
-           and isinstance(x.value.value.slice, ast.Constant) and x.value.value.slice.value == 0]
-    for x in unw:
-        base = unparse(x.value.value.value).rsplit('.nodelist', 1)[0]
-        facts = {(unparse(t), pol) for t, pol in atomic_facts(x)}
+    # per path, with locals substituted: an assignment whose value is <B>.nodelist[0].nodelist
+    cand = [x for x in iter_own(pk) if isinstance(x, ast.Assign) and isinstance(x.value, ast.Attribute)
+            and x.value.attr == 'nodelist']
+    unw = []
+    try:
+        ucs = symex.Walker(is_sink=lambda n_: any(n_ is x.value for x in cand), sink_types=(ast.Attribute,)).run(pk)
+    except symex.TooManyPaths:
+        ucs = []
+    seen_u = set()
+    for cs in ucs:
+        v = cs.sub
+        if not (isinstance(v, ast.Attribute) and isinstance(v.value, ast.Subscript) and
+                isinstance(v.value.slice, ast.Constant) and v.value.slice.value == 0):
+            continue
+        unw.append(cs)
+        base = unparse(v.value.value).rsplit('.nodelist', 1)[0]
+        facts = symex.facts_of(cs.conds)
         exact = ('len(%s) == 1' % base, True) in facts or ('len(%s.nodelist) == 1' % base, True) in facts
         isgrp = any(pol and 'isNodeType(LatexGroupNode)' in t and t.startswith(base) for t, pol in facts)
-        ctx.decide('R18h', exact and isgrp, m, x,
+        if exact and isgrp and id(cs.node) in seen_u:
+            continue
+        seen_u.add(id(cs.node))
+        ctx.decide('R18h', exact and isgrp, m, cs.node,
                    'braces stripped only from a value that consists of exactly one group',
                    'the value is replaced by the contents of its first group without the test that the '
                    'value consists of exactly that one group (facts: %s): for k={a}b everything after '
                    'the group is dropped' % sorted(t for t, pol in facts if pol and base in t),
                    construct='keyval: strip value braces')
+    # R18q: what is stripped is this pair's own value, before the repeated-key policy has combined it with an earlier one
+    seen_q = set()
+    for cs in unw:
+        bexp = symex.expand(cs.sub.value.value, cs.env)
+        btxt = unparse(bexp)
+        own = isinstance(bexp, ast.Attribute) and bexp.attr == 'nodelist' and isinstance(bexp.value, ast.Subscript) and \
+            isinstance(bexp.value.slice, ast.Constant) and bexp.value.slice.value == 1 and \
+            isinstance(bexp.value.value, ast.Call) and call_name(bexp.value.value) == 'split_at_chars'
+        if not own:
+            it = symex.item_def(unparse(cs.sub.value.value.value) if isinstance(cs.sub.value.value, ast.Attribute) else '', cs.env)
+            own = bool(it) and it[1] == 1 and isinstance(it[3], ast.Call) and call_name(it[3]) == 'split_at_chars'
+        combined = [w for w in ('result_keyvals', 'dict_type()[', 'default_value_nodelist', 'repeated_key_aggregate_action(')
+                    if w in btxt]
+        if not own and not combined and 'split_at_chars(' in btxt:
+            own = True   # this pair's own part, wrapped into a node list
+        key_ = (id(cs.node), own, bool(combined))
+        if key_ in seen_q:
+            continue
+        seen_q.add(key_)
+        if own:
+            ctx.holds('R18q', m, cs.node, 'the stripped value is the part after the equals sign of this pair',
+                      construct='keyval: strip before combining')
+        elif combined:
+            ctx.refuted('R18q', m, cs.node, 'the braces are stripped from a value that the repeated-key policy / the default has '
+                        'already produced (%s; it involves %s): with a repeated key the later braced values keep their braces '
+                        '(`a={x},a={y}` concatenates x and the group {y}) or an already stripped first value is stripped again'
+                        % (btxt[:100], combined[0].rstrip('([')), construct='keyval: strip before combining')
+        else:
+            ctx.unknown('R18q', m, cs.node, 'cannot tell which value is stripped: %s' % btxt[:100],
+                        construct='keyval: strip before combining')
     if not unw:
         ctx.unknown('R18h', m, pk, 'no brace-stripping assignment found', construct='keyval: strip value braces')
     # opening delimiters are compared with opening delimiters (index coherence), package-wide in
